@@ -96,6 +96,29 @@ def run_case(c, parse_option):
                 ctx = api.configure(path, plain(options) if options or path is None else None)
                 return {'config': dump_config(ctx), 'tree': seen.get('tree')}
             return outcome(f)
+        if k == 'configure_seq':
+            # one configuration file, several configure() calls in this process (fresh API object each, or one object for all):
+            # every call must behave like the only one
+            path = write_file(root, c['fmt'], c['file'])
+            shared = API() if c.get('shared_api') else None
+            outs = []
+            for options in c['steps']:
+                def f(options=options):
+                    api = shared or API()
+                    seen = {}
+                    model = api._configuration_model
+                    if not isinstance(model, type) and hasattr(model, '_pdv_inner'):
+                        model = model._pdv_inner
+                    class Proxy:
+                        _pdv_inner = model
+                        def model_validate(self, d):
+                            seen['tree'] = copy.deepcopy(d)
+                            return model.model_validate(d)
+                    api._configuration_model = Proxy()
+                    ctx = api.configure(path, plain(copy.deepcopy(options)) if options else None)
+                    return {'config': dump_config(ctx), 'tree': seen.get('tree')}
+                outs.append(outcome(f))
+            return {'r': 'seq', 'steps': outs}
         if k == 'lattice':
             (Path(root) / 'a.djinni').write_text('foo = enum { a; b; }\n')
             full = c['full']
